@@ -32,14 +32,14 @@ SPECS = [
     ('lazy_inv_spd', False), ('toast_obs', True), ('toast_obs_T', True),
     ('opt_k1arr_times_0d', True), ('opt_0d_div_k1arr', True), ('opt_k11arr_times_tree0d', True), ('opt_diag_trailing_unit', True),
     ('comp_ptp_index', True), ('comp_ppt_index_unique', True), ('comp_ptp_index_2d', True),
-    ('toep_dense_wide', True), ('toep_os_n8', False), ('toep_os_k2n6', False), ('toep_os_k1n3', False), ('rot_iqu_far', False), ('rot_qu_far_T', False),
+    ('toep_dense_wide', True), ('toep_os_n8', False), ('toep_os_k2n6', False), ('toep_os_k1n3', False), ('toep_os_oddfft', False), ('toep_os_minfft', False), ('rot_iqu_far', False), ('rot_qu_far_T', False),
 ]
 SPEC_NAMES = [s[0] for s in SPECS]
 EXACT = dict(SPECS)
 NO_TRANSPOSE = {'lazy_inv_spd'}          # the library does not support transposes of the iterative inverse
 # opt_*: constructions the library may legitimately refuse (ValueError/TypeError); if it accepts them, every oracle applies
 OPTIONAL = {'opt_k1arr_times_0d', 'opt_0d_div_k1arr', 'opt_k11arr_times_tree0d', 'opt_diag_trailing_unit'}
-SINGLE_ONLY = OPTIONAL | {'comp_ptp_index', 'comp_ppt_index_unique', 'comp_ptp_index_2d', 'toep_os_n8', 'toep_os_k2n6', 'toep_os_k1n3', 'toep_os', 'toep_batched', 'toep_os_short', 'dense_widening', 'bdiag_widening', 'dense_complex', 'diag_complex', 'hom_complex', 'diag_tree_mixed', 'hom_tree_mixed', 'hom_unit_widening'}  # widening: float16 data would overflow in products  # ~100 ms per application (fori_loop re-traced): singles only; C09 owns the methods
+SINGLE_ONLY = OPTIONAL | {'toep_os_oddfft', 'toep_os_minfft', 'comp_ptp_index', 'comp_ppt_index_unique', 'comp_ptp_index_2d', 'toep_os_n8', 'toep_os_k2n6', 'toep_os_k1n3', 'toep_os', 'toep_batched', 'toep_os_short', 'dense_widening', 'bdiag_widening', 'dense_complex', 'diag_complex', 'hom_complex', 'diag_tree_mixed', 'hom_tree_mixed', 'hom_unit_widening'}  # widening: float16 data would overflow in products  # ~100 ms per application (fori_loop re-traced): singles only; C09 owns the methods
 MASKED = {'index_mask', 'pack_iqu', 'pack_iqu_T'}  # boolean-mask selection: excluded from the filter_jit-as-argument claim
 
 _MEMO: dict = {}
@@ -237,6 +237,10 @@ def _build(name, dt):
         return SymmetricBandToeplitzOperator(arr([4, 1, 0.5, 0.25]), sds(8))
     if name == 'toep_os_k2n6':
         return SymmetricBandToeplitzOperator(arr([4, 1]), sds(6))
+    if name == 'toep_os_oddfft':     # explicit odd FFT size (the smallest legal one is 2K-1, always odd)
+        return SymmetricBandToeplitzOperator(arr([5, 3, 2, 1]), sds(9), fft_size=9)
+    if name == 'toep_os_minfft':
+        return SymmetricBandToeplitzOperator(arr([5, 3, 2, 1]), sds(6), fft_size=7)
     if name == 'toep_os_k1n3':
         return SymmetricBandToeplitzOperator(arr([4]), sds(3))
     if name == 'rot_iqu_far':      # angles many turns away from [0, pi) (a continuously rotating element)
